@@ -324,10 +324,17 @@ fn decode(case: &Case) -> Option<(String, Req)> {
         Some(PV::Str(s)) => Some(s.clone()),
         _ => None,
     };
-    let body = match get("body")? {
+    let mut body: Vec<u8> = match get("body")? {
         PV::Seq(s) => s.iter().filter_map(|b| if let PV::Int(i) = b { Some(*i as u8) } else { None }).collect(),
         _ => return None,
     };
+    if let Some(PV::Int(n)) = get("big") {
+        let n = (*n as usize).min(3 * 1024 * 1024);
+        body = Vec::with_capacity(n + 2);
+        body.push(b'"');
+        body.resize(n + 1, b'a');
+        body.push(b'"');
+    }
     let cfg = match get("cfg") {
         Some(PV::Int(i)) => *i as u8,
         _ => 0,
@@ -518,13 +525,12 @@ fn gen() -> GenFn {
                 m.push(("declared_len".to_string(), PV::Int(3_000_000)));
             }
             // a body above the frameworks' default 2 MiB limit (a long JSON string)
+            // (kept symbolic in the case - `big: n` stands for a JSON string of n letters - so that the
+            // shrinker does not have to walk two million nodes)
             if g.below(1500) == 0 {
                 let n = 2 * 1024 * 1024 + 64 + g.below(4096);
-                let mut big = Vec::with_capacity(n + 2);
-                big.push(b'"');
-                big.resize(n + 1, b'a');
-                big.push(b'"');
-                body = big;
+                m.push(("big".to_string(), PV::Int(n as u64)));
+                body = vec![];
             }
         }
         m.push(("body".to_string(), PV::Seq(body.into_iter().map(|b| PV::Int(b as u64)).collect())));
